@@ -220,23 +220,23 @@ def subst_type(t, targs):
 # ------------------------------------------------------------------ normal form for equality
 
 
-def norm_enc(e):
+def norm_enc(e, sort_reqs=True):
     """Reader-normal form of an encoded type / row / arbitrary JSON containing types:
     a General sum whose rows are all empty == Unit{size}; runtime_reqs are sets."""
     if isinstance(e, list):
-        return [norm_enc(x) for x in e]
+        return [norm_enc(x, sort_reqs) for x in e]
     if isinstance(e, dict):
-        d = {k: norm_enc(v) for k, v in e.items()}
+        d = {k: norm_enc(v, sort_reqs) for k, v in e.items()}
         if d.get("t") == "Sum" and d.get("s") == "General" and all(len(r) == 0 for r in d.get("rows", [None])):
             return {"t": "Sum", "s": "Unit", "size": len(d["rows"])}
-        if d.get("t") == "G" and "runtime_reqs" in d:
+        if sort_reqs and d.get("t") == "G" and "runtime_reqs" in d:
             d["runtime_reqs"] = sorted(set(d["runtime_reqs"]))
         return d
     return e
 
 
-def norm_type(t):
-    return norm_enc(enc_type(t))
+def norm_type(t, sort_reqs=True):
+    return norm_enc(enc_type(t), sort_reqs)
 
 
 def ty_eq(a, b) -> bool:
@@ -341,8 +341,9 @@ def enc_value(v):
                     {"parent": 0, "op": "DFG", "signature": sig},
                     {"parent": 0, "op": "Input", "types": enc_row(v["i"])},
                     {"parent": 0, "op": "Output", "types": enc_row(v["o"])},
+                    {"parent": 0, "op": "Extension", "extension": "gen.ext", "name": "body", "signature": dict(sig, runtime_reqs=[]), "description": "", "args": []},
                 ],
-                "edges": [],
+                "edges": [[[1, k], [3, k]] for k in range(len(v["i"]))] + [[[3, k], [2, k]] for k in range(len(v["o"]))],
             },
         }
     raise ValueError(k)
